@@ -66,6 +66,28 @@ def blit_like(rng):
     return out
 
 
+def fill_requests(rng):
+    """pixman_image_fill_boxes / fill_rectangles: boxes inside, straddling and outside the image x destination clips
+       (none, inside, reaching beyond the image on each side, multi-rectangle) x operators that take / do not take the
+       direct-fill shortcut x strides of either sign"""
+    out = []
+    fm = [F[k] for k in ("a8r8g8b8", "x8r8g8b8", "r5g6b5", "a8", "a1", "r8g8b8", "b8g8r8a8")]
+    for dfmt in fm:
+        for (dw, dh) in ((8, 4), (5, 3)):
+            clips = [[], [[1, 1, dw - 1, dh - 1]], [[-3, -2, dw + 4, dh + 3]], [[0, 0, dw, dh + 5]], [[0, -4, dw, dh]],
+                     [[-6, 0, dw, dh]], [[0, 0, dw + 7, dh]], [[0, 0, 2, dh + 2], [3, -2, dw + 3, 2]]]
+            boxes = [[[0, 0, dw, dh]], [[-2, -2, dw + 2, dh + 2]], [[1, 1, 3, 2], [2, dh - 1, dw + 3, dh + 4]],
+                     [[dw - 1, 0, dw + 5, dh]], [[0, dh - 1, dw, dh + 6]], [[-5, -5, 1, 1]]]
+            for clip in clips:
+                for bx in boxes:
+                    for (op, alpha) in ((1, 0xffff), (3, 0xffff), (0, 0x8000), (3, 0x8000), (12, 0xffff)):
+                        mode = rng.choice([0, 1, 2])
+                        f = [mode, dfmt, dw, dh, rng.choice([0, 0, 1]), op, rng.choice([0, 1]), len(clip)] + \
+                            [c for b in clip for c in b] + [len(bx)] + [c for b in bx for c in b] + [alpha, rng.randrange(1, 2 ** 31)]
+                        out.append("B %d %s" % (len(f), " ".join(str(int(v)) for v in f)))
+    return out
+
+
 def gen(rng, n):
     out = []
     fm = [F[k] for k in ("a8r8g8b8", "x8r8g8b8", "r5g6b5", "a8", "a1", "r8g8b8", "a4r4g4b4", "x2r10g10b10", "r3g3b2")]
@@ -166,6 +188,9 @@ def run(prop, args):
     exe, px = vf.build_driver("drv_bounds", "plain")
     chk.extra["build"] = px["hash"]
     reqs = gen(rng, 700 if quick else 6000)
+    fills = fill_requests(rng)
+    reqs += fills if not quick else rng.sample(fills, 700)
+    chk.extra["fill_requests"] = len(fills)
     blits = blit_like(rng)
     reqs += blits if not quick else rng.sample(blits, 500)
     chk.extra["blit_like_requests"] = len(blits)
